@@ -191,6 +191,15 @@ def run(ctx):
     G.always_reaches(ctx, "R5", MOD, "ContentsFile.flush", lambda c: A.unparse(c.func) == "self._write", "the rewrite of CONTENTS (`self._write()`)", "flush-always-writes")
     ctx.floor("R5", 2)
 
+    # ---- R6 records are framed by '\n' only, on both sides ----------------------------------------------------------------
+    for q in ("ContentsFile._get_fd", "ContentsFile._iter_contents"):
+        fq = P.func(MOD, q)
+        sl = [c for c in A.calls(fq.node) if A.call_attr(c) == "splitlines"]
+        ctx.check("R6", fq, not sl, f"newline-only-framing:{q}", f"{q} frames records the way the writer does (one per '\\n')",
+                  f"{q} splits the file with str.splitlines(), which also breaks on \\x0b, \\x0c, \\x1c-\\x1e, \\x85, U+2028, U+2029; the writer ends a record with '\\n' only, so a path "
+                  f"containing one of those characters is written as one record and read back as two", node=sl[0] if sl else None)
+    ctx.floor("R6", 2)
+
 
 MUTANTS = [
     {"name": "split-whitespace", "file": "src/pkgcore/vdb/contents.py", "old": "            s = line.split(\" \")", "new": "            s = line.split()", "rule": "R1"},
